@@ -37,7 +37,7 @@ def in_domain(w, line):
             si, sj = t["units"][i]["scale_val"], t["units"][j]["scale_val"]
             m = a * si
             return all(ok_mag(x) for x in (a, m, m / smin(t), m / sj)) and ok_mag(si / sj, False)
-        if op in ("fmt", "fmtu") or (op == "rate" and ws[7] == "fmt"):
+        if op in ("fmt", "fmtu", "fmtnest") or (op == "rate" and ws[7] == "fmt"):
             return True      # formatting has no magnitude precondition: it must never panic
         if op in ("add", "sub", "div", "cmp"):
             t = w.by_name[ws[1]]
@@ -162,6 +162,11 @@ def gen(w, rng, tier):
             for prec in sorted({0, 1, max(0, nsym - 1), nsym, nsym + 1}):
                 add("fmtu", f"fmtu {t['name']} {i} wr00 {rng.below(12)} {prec}")
             add("fmtu", f"fmtu {t['name']} {i} nn00 - -")
+            # very long amount texts (a fixed-size buffer would not hold them) and re-entrant formatting
+            la, a = rng.choice(sp)
+            add(f"fmt:long:{la}", f"fmt {t['name']} {i} {a} nn00 - {[40, 120, 330, 600, 1100][rng.below(5)]}")
+            la, a = rng.choice(sp)
+            add(f"fmtnest:{la}", f"fmtnest {t['name']} {i} {a}")
     for (op, l, r, o) in w.derived():
         tl, tr = w.by_name[l], w.by_name[r]
         pairs = [(i, j) for i in range(tl["n"]) for j in range(tr["n"])]
